@@ -103,11 +103,14 @@ def findValueChoice (e : BEnv) (var : XmlVar) (value : J) : Except Err (Option V
     match tp with
     | .error err => .error err
     | .ok tp =>
-      .ok (choices.find? fun el =>
-        if el.anyType || el.clazz.isSome || el.tokens != isTokens then false
-        else if (match tp with | some t => el.types.contains t | none => false) then true
-        else if isTokens && (match value with | .arr xs => xs.all (converterTest e · el.types) | _ => false) then true
-        else converterTest e value el.types)
+      -- a choice of the value's exact type first, then the first one that converts it
+      let cands := choices.filter fun el => !(el.anyType || el.clazz.isSome || el.tokens != isTokens)
+      match cands.find? (fun el => match tp with | some t => el.types.contains t | none => false) with
+      | some el => .ok (some el)
+      | none =>
+        .ok (cands.find? fun el =>
+          if isTokens && (match value with | .arr xs => xs.all (converterTest e · el.types) | _ => false) then true
+          else converterTest e value el.types)
 
 /-- `bind_text` for a var that is not a compound field -/
 def bindTextPlain (e : BEnv) (cfg : ParserConfig) (var : VarCore) (value : J) : Except Err Val :=
